@@ -69,7 +69,10 @@ type cdDrv struct {
 	nbigent, nexact, nover, n64k                int
 	ntrunc, ncorrupt, npanic, nerrpath, nhuge   int
 	bytesTotal                                  int64
-	nhugeRun, ncrash                            int
+	nhugeRun, ncrash, nbatch, nchild, ncrashRun int
+	nchunked, nresend                           int
+	inproc                                      bool
+	nnotrun                                     int
 	hugeLeft                                    int    // corruptions with a huge length still to be run in a child process
 	scratch                                     string // directory for the child's input
 	truncClasses, corruptClasses, corruptFields map[string]int
@@ -188,6 +191,7 @@ type cdStream struct {
 	sentDig    []string
 	got        []raftpb.Message // decoded messages kept for the late digests
 	closed     bool
+	chunk      int // > 0: the decoder's reader returns at most this many bytes per Read
 }
 
 // cdReader reads what has been written so far (never more); at the current end it
@@ -195,6 +199,20 @@ type cdStream struct {
 type cdReader struct {
 	s   *cdStream
 	off int
+}
+
+// cdChunk limits every Read of r to at most n bytes (a connection delivering a frame in
+// pieces); n <= 0: no limit
+type cdChunk struct {
+	r io.Reader
+	n int
+}
+
+func (c *cdChunk) Read(p []byte) (int, error) {
+	if c.n > 0 && len(p) > c.n {
+		p = p[:c.n]
+	}
+	return c.r.Read(p)
 }
 
 func (r *cdReader) Read(p []byte) (int, error) {
@@ -222,7 +240,12 @@ func (d *cdDrv) newStream(v2, buffered bool, local, remote uint64, stage string)
 	} else {
 		s.enc = rafthttp.VerifNewMessageEncoder(&s.out)
 	}
-	s.dec = cdNewDecoder(v2, buffered, s.rd, local, remote)
+	// every third stream is read through a reader that delivers short reads
+	if d.nseg%3 == 1 {
+		s.chunk = []int{1, 7, 256, 4096, 65536, 1000000}[d.rng.Intn(6)]
+		d.nchunked++
+	}
+	s.dec = cdNewDecoder(v2, buffered, &cdChunk{s.rd, s.chunk}, local, remote)
 	stream := "msg"
 	if v2 {
 		stream = "v2"
@@ -481,6 +504,7 @@ func (d *cdDrv) randomV2(s *cdStream, length int, bigProb float64) {
 	// what the previous append ended with (independent of what the codec does with it)
 	last := cdCursor{0, 0}
 	g := d.rng.Intn(npairs)
+	first, lastG := uint64(0), g
 	pending := 0
 	for step := 0; step < length && !s.closed; step++ {
 		if d.rng.Intn(12) == 0 {
@@ -491,7 +515,7 @@ func (d *cdDrv) randomV2(s *cdStream, length int, bigProb float64) {
 			}
 			c := &cur[g]
 			term, logterm, index := c.term, c.term, c.index
-			switch d.rng.Intn(14) {
+			switch d.rng.Intn(15) {
 			case 0: // new leader term: the first append carries the old log term
 				c.term += uint64(1 + d.rng.Intn(2))
 				term = c.term
@@ -512,6 +536,16 @@ func (d *cdDrv) randomV2(s *cdStream, length int, bigProb float64) {
 				if term > 1 {
 					logterm = term - 1
 				}
+			case 8: // back at the first term of this stream, at the previous position and group
+				if first > 0 {
+					g = lastG
+					c = &cur[g]
+					term, logterm, index = first, first, last.index
+					c.term = term
+				}
+			}
+			if first == 0 {
+				first = term
 			}
 			if term == 0 {
 				term, logterm = 1, 1
@@ -536,6 +570,7 @@ func (d *cdDrv) randomV2(s *cdStream, length int, bigProb float64) {
 			d.encode(s, m)
 			c.index = index + uint64(n)
 			last = cdCursor{term, c.index}
+			lastG = g
 		}
 		pending++
 		for pending > 0 && d.rng.Intn(3) != 0 {
@@ -566,6 +601,44 @@ func (d *cdDrv) v2MessageSizes(s *cdStream) {
 		d.encode(s, m2)
 		d.decode(s)
 		idx += 5
+	}
+	for d.decode(s) {
+	}
+	d.late(s)
+}
+
+// the leader streams a large entry in a continuation frame and, not acknowledged, sends
+// again from the same previous index (probe after MsgUnreachable / reject); for every size
+// class around the buffer
+func (d *cdDrv) v2ResendAfterBig(s *cdStream) {
+	pair := cdPairs[d.rng.Intn(3)]
+	idx := uint64(5)
+	for _, target := range []int{cdBuf - 1, cdBuf, cdBuf + 1, cdBuf + cdBuf/2 + 17, 65536, 70000} {
+		d.nresend++
+		// full frame, then continuation mode
+		d.encode(s, d.appMsg(pair, 2, 1, idx, 1, 1, idx))
+		idx++
+		d.encode(s, d.appMsg(pair, 2, 2, idx, 0, 1, idx))
+		// continuation carrying the large entry (and sometimes a small one behind it)
+		m := raftpb.Message{Type: raftpb.MsgApp, From: pair[0].RaftReplicaId, To: pair[1].RaftReplicaId,
+			Term: 2, LogTerm: 2, Index: idx, Commit: idx, FromGroup: pair[0], ToGroup: pair[1]}
+		m.Entries = append(m.Entries, d.entrySized(raftpb.Entry{Index: idx + 1, Term: 2}, target))
+		if d.rng.Intn(2) == 0 {
+			m.Entries = append(m.Entries, d.fillEntry(raftpb.Entry{Index: idx + 2, Term: 2}, 1))
+		}
+		d.encode(s, m)
+		for d.rng.Intn(2) == 0 && d.decode(s) {
+		}
+		// not acknowledged: the same append again from the same previous index, then on
+		d.encode(s, m)
+		idx += uint64(len(m.Entries))
+		d.encode(s, d.appMsg(pair, 2, 2, idx, 1, 1, idx))
+		idx++
+		for len(s.got) < len(s.sent) && d.decode(s) {
+		}
+		if s.closed {
+			break
+		}
 	}
 	for d.decode(s) {
 	}
@@ -775,7 +848,7 @@ func (d *cdDrv) decodeAll(s *cdStream, raw []byte, max int) (got []string, class
 			}
 		}
 	}()
-	dec := cdNewDecoder(s.v2, s.buffered, bytes.NewReader(raw), s.local, s.rem)
+	dec := cdNewDecoder(s.v2, s.buffered, &cdChunk{bytes.NewReader(raw), s.chunk}, s.local, s.rem)
 	for {
 		m, err := dec.Decode()
 		if err != nil {
@@ -794,7 +867,9 @@ func (d *cdDrv) explore(s *cdStream, full bool, samples int, payloadCorrupt bool
 	fields := cdLayout(s, raw)
 	// ---- truncation points
 	ks := map[int]bool{}
-	if full || len(raw) <= 4096 {
+	// every byte offset for small streams (<= 4 KB; <= 32 KB with -full); a structured sample
+	// (headers, frame boundaries, payload ends, seeded offsets) for larger ones
+	if len(raw) <= 4096 || (full && len(raw) <= 32768) {
 		for k := 0; k <= len(raw); k++ {
 			ks[k] = true
 		}
@@ -822,6 +897,9 @@ func (d *cdDrv) explore(s *cdStream, full bool, samples int, payloadCorrupt bool
 			add(e)
 			add(e + 1)
 		}
+		if full {
+			samples *= 10
+		}
 		for i := 0; i < samples; i++ {
 			add(d.rng.Intn(len(raw) + 1))
 		}
@@ -838,6 +916,7 @@ func (d *cdDrv) explore(s *cdStream, full bool, samples int, payloadCorrupt bool
 		d.tw.Emit(trace.M{"ev": "trunc", "k": k, "got": got, "errclass": class, "errtext": text})
 	}
 	// ---- single-byte corruptions of header bytes (and, optionally, payload bytes)
+	var cases []cdCase
 	corrupt := func(f cdField, pos int, nb byte) {
 		old := raw[pos]
 		if nb == old {
@@ -849,33 +928,32 @@ func (d *cdDrv) explore(s *cdStream, full bool, samples int, payloadCorrupt bool
 			copy(b[:], raw[f.pos:f.pos+8])
 			b[pos-f.pos] = nb
 			v := binary.BigEndian.Uint64(b[:])
-			// a length or count between 32 MB and 2^47 would make the decoder allocate that
-			// much before it reads anything; such cases are counted, not executed in-process
-			// (above 2^48 bytes makeslice panics instead, which is recoverable)
-			if f.name != "commit" && (v > 32<<20 || (f.name == "count" && v > 1<<16)) && v < 1<<50 {
-				d.nhuge++
-				if d.hugeLeft > 0 {
-					d.hugeLeft--
-					raw[pos] = nb
-					d.hugeChild(s, raw, f, pos, old, nb)
-					raw[pos] = old
-				}
-				return
-			}
 			if v > math.MaxInt32 {
 				newlen = math.MaxInt32
 			} else {
 				newlen = int(v)
 			}
+			// The decoders refuse lengths above readBytesLimit (512 MB; entry count above
+			// readBytesLimit/8) with ErrExceedSizeLimit, but a damaged value BELOW the limit is
+			// allocated before the read fails: up to 512 MB for a length, several GB for a
+			// count.  That is bounded and intended; to keep the driver's children small such
+			// cases (implied allocation above 64 MB, value within the limit) are not executed
+			// but counted (skipped_large_alloc).  Everything above the limit IS executed and
+			// must come back as an error.
+			limit := rafthttp.VerifReadBytesLimit()
+			if f.name == "count" && v*96 > 64<<20 && v <= limit/8 {
+				d.nhuge++
+				return
+			}
+			if (f.name == "entlen" || f.name == "fulllen" || f.name == "msglen") && v > 64<<20 && v <= limit {
+				d.nhuge++
+				return
+			}
+			if f.name != "commit" && v > limit {
+				d.nhugeRun++
+			}
 		}
-		raw[pos] = nb
-		got, class, text := d.decodeAll(s, raw, nfr+2)
-		raw[pos] = old
-		d.ncorrupt++
-		d.corruptClasses[class]++
-		d.corruptFields[f.name]++
-		d.tw.Emit(trace.M{"ev": "corrupt", "pos": pos, "frame": f.frame, "field": f.name, "old": int(old), "new": int(nb),
-			"newlen": newlen, "remain": f.remain, "got": got, "errclass": class, "errtext": text})
+		cases = append(cases, cdCase{f: f, Pos: pos, Nb: nb, old: old, newlen: newlen})
 	}
 	for _, f := range fields {
 		switch {
@@ -902,68 +980,149 @@ func (d *cdDrv) explore(s *cdStream, full bool, samples int, payloadCorrupt bool
 			}
 		}
 	}
+	// all corruption cases are decoded in child processes: a damaged byte can make the decoder
+	// take the whole process down (see hugeChild), also indirectly (a changed type byte or
+	// count makes payload bytes serve as length prefixes)
+	results := d.runCases(s, raw, cases, nfr+2)
+	for i, c := range cases {
+		r := results[i]
+		if r.Class == "notrun" {
+			d.nnotrun++
+			continue
+		}
+		d.ncorrupt++
+		d.corruptClasses[r.Class]++
+		d.corruptFields[c.f.name]++
+		if r.Class == "crash" {
+			d.ncrash++
+		}
+		if r.Class == "panic" {
+			d.npanic++
+		}
+		d.tw.Emit(trace.M{"ev": "corrupt", "pos": c.Pos, "frame": c.f.frame, "field": c.f.name, "old": int(c.old), "new": int(c.Nb),
+			"newlen": c.newlen, "remain": c.f.remain, "got": r.Got, "errclass": r.Class, "errtext": r.Text})
+	}
 }
 
 func sortInts(a []int) { sort.Ints(a) }
 
-// hugeChild runs one corrupted stream in a child process (address space limited to 8 GB),
-// because a decoder that allocates what a damaged length prefix says can take the whole
-// process down with a fatal, unrecoverable out-of-memory error
-func (d *cdDrv) hugeChild(s *cdStream, raw []byte, f cdField, pos int, old, nb byte) {
-	file := filepath.Join(d.scratch, fmt.Sprintf("huge-%d.bin", d.nhugeRun))
-	d.nhugeRun++
-	if err := ioutil.WriteFile(file, raw, 0644); err != nil {
-		return
-	}
-	defer os.Remove(file)
-	cmd := exec.Command("/bin/sh", "-c", fmt.Sprintf("ulimit -v 8388608; exec %q codecsim -child %q -childv2=%v -childbuf=%v -childlocal %d -childremote %d -o none",
-		os.Args[0], file, s.v2, s.buffered, s.local, s.rem))
-	var so, se bytes.Buffer
-	cmd.Stdout, cmd.Stderr = &so, &se
-	err := cmd.Run()
-	got, class, text := []string{}, "crash", ""
-	for _, l := range strings.Split(so.String(), "\n") {
-		if strings.HasPrefix(l, "CHILD ") {
-			var r struct {
-				Got   []string
-				Class string
-				Text  string
-			}
-			if json.Unmarshal([]byte(l[6:]), &r) == nil {
-				got, class, text = r.Got, r.Class, r.Text
-			}
-		}
-	}
-	if class == "crash" {
-		text = strings.SplitN(se.String(), "\n", 3)[0]
-		if len(text) > 120 {
-			text = text[:120]
-		}
-		if err == nil {
-			return // no result line but a clean exit: not a case
-		}
-		d.ncrash++
-	}
-	if got == nil {
-		got = []string{}
-	}
-	d.ncorrupt++
-	d.corruptClasses[class]++
-	d.corruptFields[f.name]++
-	d.tw.Emit(trace.M{"ev": "corrupt", "pos": pos, "frame": f.frame, "field": f.name, "old": int(old), "new": int(nb),
-		"newlen": math.MaxInt32, "remain": f.remain, "got": got, "errclass": class, "errtext": text})
+type cdCase struct {
+	f      cdField
+	Pos    int
+	Nb     byte
+	old    byte
+	newlen int
 }
 
-func cdChild(file string, v2, buffered bool, local, remote uint64) error {
-	raw, err := ioutil.ReadFile(file)
+type cdResult struct {
+	Got   []string
+	Class string
+	Text  string
+}
+
+type cdBatch struct {
+	V2, Buffered  bool
+	Local, Remote uint64
+	Chunk         int
+	Max           int
+	Cases         []cdCase
+}
+
+// runCases decodes raw with one byte changed per case.  The work is done by child processes
+// (address space limited to 16 GB) that handle the cases in order and print one result line
+// each; when a child dies, the case it was working on is recorded as "crash" (a decoder that
+// allocates what a damaged length prefix says can end the process with a fatal,
+// unrecoverable out-of-memory error) and a new child continues behind it.
+func (d *cdDrv) runCases(s *cdStream, raw []byte, cases []cdCase, max int) []cdResult {
+	results := make([]cdResult, len(cases))
+	if len(cases) == 0 {
+		return results
+	}
+	if d.inproc {
+		for i, c := range cases {
+			raw[c.Pos] = c.Nb
+			got, class, text := d.decodeAll(s, raw, max)
+			raw[c.Pos] = c.old
+			results[i] = cdResult{got, class, text}
+		}
+		return results
+	}
+	d.nbatch++
+	base := filepath.Join(d.scratch, fmt.Sprintf("batch-%d-%d", os.Getpid(), d.nbatch))
+	if err := ioutil.WriteFile(base+".bin", raw, 0644); err != nil {
+		panic(err)
+	}
+	defer os.Remove(base + ".bin")
+	defer os.Remove(base + ".json")
+	next := 0
+	for next < len(cases) {
+		if d.ncrashRun >= 12 {
+			// a decoder that dies this often needs no further demonstration; the remaining
+			// cases are reported as not run
+			for ; next < len(cases); next++ {
+				results[next] = cdResult{[]string{}, "notrun", "too many crashes in this run"}
+			}
+			break
+		}
+		b, _ := json.Marshal(cdBatch{V2: s.v2, Buffered: s.buffered, Local: s.local, Remote: s.rem, Chunk: s.chunk, Max: max, Cases: cases[next:]})
+		if err := ioutil.WriteFile(base+".json", b, 0644); err != nil {
+			panic(err)
+		}
+		cmd := exec.Command("/bin/sh", "-c", fmt.Sprintf("ulimit -v 16777216; exec %q codecsim -child %q -o none", os.Args[0], base))
+		var so, se bytes.Buffer
+		cmd.Stdout, cmd.Stderr = &so, &se
+		cmd.Run()
+		d.nchild++
+		done := 0
+		for _, l := range strings.Split(so.String(), "\n") {
+			if strings.HasPrefix(l, "R ") && next+done < len(cases) {
+				var r cdResult
+				if json.Unmarshal([]byte(l[2:]), &r) == nil {
+					if r.Got == nil {
+						r.Got = []string{}
+					}
+					results[next+done] = r
+					done++
+				}
+			}
+		}
+		next += done
+		if next < len(cases) {
+			text := strings.SplitN(se.String(), "\n", 3)[0]
+			if len(text) > 120 {
+				text = text[:120]
+			}
+			results[next] = cdResult{[]string{}, "crash", text}
+			d.ncrashRun++
+			next++
+		}
+	}
+	return results
+}
+
+func cdChild(base string) error {
+	raw, err := ioutil.ReadFile(base + ".bin")
 	if err != nil {
 		return err
 	}
+	jb, err := ioutil.ReadFile(base + ".json")
+	if err != nil {
+		return err
+	}
+	var b cdBatch
+	if err := json.Unmarshal(jb, &b); err != nil {
+		return err
+	}
 	d := &cdDrv{}
-	s := &cdStream{v2: v2, buffered: buffered, local: local, rem: remote}
-	got, class, text := d.decodeAll(s, raw, 64)
-	b, _ := json.Marshal(map[string]interface{}{"Got": got, "Class": class, "Text": text})
-	fmt.Printf("CHILD %s\n", b)
+	s := &cdStream{v2: b.V2, buffered: b.Buffered, local: b.Local, rem: b.Remote, chunk: b.Chunk}
+	for _, c := range b.Cases {
+		old := raw[c.Pos]
+		raw[c.Pos] = c.Nb
+		got, class, text := d.decodeAll(s, raw, b.Max)
+		raw[c.Pos] = old
+		o, _ := json.Marshal(cdResult{got, class, text})
+		fmt.Printf("R %s\n", o)
+	}
 	return nil
 }
 
@@ -976,23 +1135,20 @@ func codecsim(args []string) error {
 	nrandom := fs.Int("random", 0, "random msgappv2 sequences")
 	nmsg := fs.Int("msg", 0, "random generic-stream sequences")
 	nexplore := fs.Int("explore", 0, "streams explored byte by byte (truncation, corruption)")
-	full := fs.Bool("full", false, "explore every truncation point also of large streams")
+	full := fs.Bool("full", false, "explore every truncation point of streams up to 32 KB and 10x the samples of larger ones")
 	payload := fs.Bool("payload", false, "also corrupt payload bytes")
 	length := fs.Int("len", 30, "messages per random sequence")
 	bigp := fs.Float64("big", 0.08, "probability of a large entry")
 	seed := fs.Int64("seed", 1, "seed")
 	out := fs.String("o", "", "trace file")
 	huge := fs.Int("huge", 0, "corruptions producing a huge length that are run in a child process (per run)")
-	child := fs.String("child", "", "(internal) decode this file and print the result")
-	childv2 := fs.Bool("childv2", true, "(internal)")
-	childbuf := fs.Bool("childbuf", true, "(internal)")
-	childlocal := fs.Uint64("childlocal", 2, "(internal)")
-	childremote := fs.Uint64("childremote", 1, "(internal)")
+	child := fs.String("child", "", "(internal) decode the cases of this batch and print the results")
+	inproc := fs.Bool("inproc", false, "decode corrupted streams in this process (debugging only: may die)")
 	if err := fs.Parse(args); err != nil {
 		return err
 	}
 	if *child != "" {
-		return cdChild(*child, *childv2, *childbuf, *childlocal, *childremote)
+		return cdChild(*child)
 	}
 	if *out == "" {
 		return fmt.Errorf("-o required")
@@ -1003,7 +1159,7 @@ func codecsim(args []string) error {
 	}
 	defer tw.Close()
 	d := &cdDrv{tw: tw, rng: rand.New(rand.NewSource(*seed)), truncClasses: map[string]int{},
-		corruptClasses: map[string]int{}, corruptFields: map[string]int{}, hugeLeft: *huge, scratch: filepath.Dir(*out)}
+		corruptClasses: map[string]int{}, corruptFields: map[string]int{}, hugeLeft: *huge, scratch: filepath.Dir(*out), inproc: *inproc}
 	for i := 0; i < 3; i++ {
 		b := make([]byte, 2*cdBuf)
 		d.rng.Read(b)
@@ -1039,6 +1195,8 @@ func codecsim(args []string) error {
 		s := d.newStream(true, true, local, remote, stage)
 		if i%25 == 7 {
 			d.v2MessageSizes(s)
+		} else if i%20 == 3 {
+			d.v2ResendAfterBig(s)
 		} else {
 			d.randomV2(s, *length, *bigp)
 		}
@@ -1069,8 +1227,9 @@ func codecsim(args []string) error {
 		"frames_full": d.nfull, "frames_hb": d.nhb, "late_digests": d.nlate, "big_entries": d.nbigent,
 		"entries_at_buffer_size": d.nexact, "entries_over_buffer": d.nover, "entries_around_64k": d.n64k,
 		"truncations": d.ntrunc, "corruptions": d.ncorrupt, "panics": d.npanic, "decode_errors": d.nerrpath,
-		"corruptions_with_huge_length":   d.nhuge,
-		"huge_length_cases_run_in_child": d.nhugeRun, "child_crashes": d.ncrash} {
+		"skipped_large_alloc":   d.nhuge,
+		"above_limit_cases_run": d.nhugeRun, "child_crashes": d.ncrash, "child_processes": d.nchild,
+		"corruptions_not_run_after_crashes": d.nnotrun, "segments_with_short_reads": d.nchunked, "resend_after_big_scenarios": d.nresend} {
 		sum[k] = v
 	}
 	sum["bytes"] = d.bytesTotal
